@@ -15,6 +15,7 @@ import (
 	"fmt"
 	"strings"
 	"testing"
+	"time"
 
 	"github.com/rs/zerolog"
 	errors2 "k8s.io/apimachinery/pkg/api/errors"
@@ -80,7 +81,7 @@ func (r *c19Repo) Get(_ context.Context, key types.NamespacedName, _ metav1.GetO
 	t := r.cur()
 	r.pos++
 
-	if !t.GetOK {
+	if !t.GetOK || r.pos > 20 { // never more re-reads than that: a persistent conflict makes updateStatus retry for ever
 		return nil, errors.New("c19: get failed")
 	}
 
@@ -131,6 +132,8 @@ type c19K8sCase struct {
 }
 
 func TestVerifC19K8s(t *testing.T) {
+	defer c19gen.Watchdog(t, "k8s", 45*time.Second)()
+
 	w := vf.NewWriter()
 	defer w.Close()
 
